@@ -148,6 +148,21 @@ def rule_c(ctx):
                         calls_it = any(isinstance(c, ast.Call) and norm(c.func) == p.arg for c in ast.walk(f.node))
                         ctx.ob(R, f.qname, f"shared default `{p.arg}={norm(d)}` is refreshed through update_params before use",
                                direct or (delegates and not calls_it), f"direct={direct} delegates={delegates} calls_it={calls_it}", d)
+                        # an attribute of the shared instance assigned only on some paths keeps, on the other paths, what an earlier call left there
+                        for st_ in ast.walk(f.node):
+                            if isinstance(st_, (ast.Assign, ast.AugAssign)):
+                                for t_ in (st_.targets if isinstance(st_, ast.Assign) else [st_.target]):
+                                    if isinstance(t_, ast.Attribute) and isinstance(t_.value, ast.Name) and t_.value.id == p.arg:
+                                        cur_, cond_ = st_, None
+                                        while cur_ is not None and cur_ is not f.node:
+                                            par_ = getattr(cur_, "_parent", None)
+                                            if isinstance(par_, (ast.If, ast.While, ast.For, ast.Try)):
+                                                cond_ = par_
+                                                break
+                                            cur_ = par_
+                                        ctx.ob(R, f.qname, f"`{norm(st_)[:50]}`: an attribute of the shared default `{p.arg}` is set on every call or never", cond_ is None,
+                                               f"the store is conditional (`{norm(cond_.test)[:50] if isinstance(cond_, (ast.If, ast.While)) else type(cond_).__name__}`): a call that sets {p.arg}.{t_.attr} leaves it on the "
+                                               f"instance every later call without an explicit {p.arg} shares -- the result of such a call depends on the calls made before", st_, evidence=True)
                     else:
                         sa = StateAnalysis(m, tgt, ["__call__"]) if m.method(tgt, "__call__") else None
                         cw = sorted(sa.call_written) if sa else []
